@@ -858,6 +858,8 @@ class C18(Check):
             self.note("param-form:%s" % pform)
         if not st["names"]:
             fails.extend(self._check_forms(name, full_op, img, arr_before, r_img, r_arr, None, None, masked))
+        if not fails and not st["names"]:
+            fails.extend(self._check_reuse(name, full_op, st, img, arr_before, r_img, r_arr, masked))
         if fails:
             return fails
 
@@ -913,6 +915,109 @@ class C18(Check):
             if d is not None:
                 fails.append(Failure(name, "image-form", "image over a read-only pixel buffer gives another result: %s" % d))
         self.note("form:image-readonly-pixels%s" % ("" if shares else "-copied"))
+        return fails
+
+    # features that may share intermediate results with the feature under test (one letter per feature family that
+    # computes something another feature could keep: the gradient, the orientation / edge features built on it, daisy)
+    PREVIOUS = [("gradient",), ("igo",), ("es",), ("daisy", 1, 2, 1, 2, 4, "l1")]
+
+    def _check_reuse(self, name, full_op, st, img, arr, r_img, r_arr, masked):
+        """ONE live array and ONE live image are used across calls (root states): the feature is called on a live
+        object holding other data, on a second live object, again on the first (alternation), then each object is
+        refilled IN PLACE through its public pixel buffer and the feature is called again; then another feature is
+        called on the same live object before the data is replaced / before the feature under test is called.  Every
+        result must equal the result on a freshly built object holding the same data (anything memoised on the
+        object, on its buffer's identity, or at module level would show as a stale result)."""
+        from menpo.image import Image, MaskedImage
+
+        fails = []
+        alt = np.array(arr[(slice(None), slice(None, None, -1)) + (Ellipsis, slice(None, None, -1))] if arr.ndim > 2 else arr[:, ::-1], copy=True)
+        if alt.shape != arr.shape or np.array_equal(alt, arr, equal_nan=True):
+            alt = np.array(arr, copy=True)
+            flat = alt.reshape(alt.shape[0], -1)
+            half = flat[:, : max(1, flat.shape[1] // 2)]
+            if alt.dtype == bool:
+                half[...] = ~half
+            elif alt.dtype.kind in "iu":
+                half[...] = np.where(half > 0, half - 1, half + 1)
+            else:
+                half[...] = half * 0.5 + 0.125
+        self.note("reuse:alt-data-%s" % ("differs" if not np.array_equal(alt, arr, equal_nan=True) else "equal"))
+
+        def call(op_, x):
+            try:
+                with np.errstate(all="ignore"):
+                    return call_feature(op_, x), None
+            except (ValueError, TypeError, IndexError, ZeroDivisionError, FloatingPointError) as e:
+                return None, e
+
+        def mk_img(px):
+            im = MaskedImage(np.array(px, copy=True), mask=img.mask.pixels[0].copy()) if masked else Image(np.array(px, copy=True))
+            if img.has_landmarks:
+                im.landmarks = img.landmarks
+            return im
+
+        def same(kind, got, exp):
+            (rg, eg), (re_, ee) = got, exp
+            if (eg is None) != (ee is None) or (eg is not None and type(eg) is not type(ee)):
+                return "%s vs fresh object: %s" % (_short(eg, rg), _short(ee, re_))
+            if eg is not None:
+                return None
+            if kind == "array":
+                if not (isinstance(rg, np.ndarray) and rg.shape == re_.shape and np.array_equal(rg, re_, equal_nan=True)):
+                    return "values differ from the fresh call (max abs %.3g)" % _maxdiff(rg, re_)
+                return None
+            return obs_diff(observe(re_), observe(rg))
+
+        for kind in ("array", "image"):
+            if kind == "array":
+                fresh = lambda d: np.array(d, copy=True)  # noqa: E731
+                refill = lambda x, d: x.__setitem__(Ellipsis, d)  # noqa: E731
+                held = lambda x: x  # noqa: E731
+            else:
+                fresh = mk_img
+                refill = lambda x, d: x.pixels.__setitem__(Ellipsis, d)  # noqa: E731
+                held = lambda x: x.pixels  # noqa: E731
+            data = {"cur": arr, "alt": alt}
+            # references first, each on an object of its own
+            ref = {"cur": ((r_arr if kind == "array" else r_img), None), "alt": call(full_op, fresh(alt))}
+            X, Y = fresh(alt), fresh(arr)
+            steps = [
+                ("first-use", X, "alt", None),
+                ("second-object", Y, "cur", None),
+                ("alternate", X, "alt", None),
+                ("refill", X, "cur", "cur"),
+                ("refill", Y, "alt", "alt"),
+                ("repeat", Y, "alt", None),
+            ]
+            for what, obj, holds, fill in steps:
+                if fill is not None:
+                    refill(obj, data[fill])
+                d = same(kind, call(full_op, obj), ref[holds])
+                self.note("reuse:%s-%s" % (what, kind))
+                if d is not None:
+                    fails.append(Failure(name, "live-object-reuse", "%s: feature on a live %s (%s, holding the %s data): %s" % (what, kind, "refilled in place" if fill else "used before", holds, d)))
+                    return fails
+            # another feature on the same live object before the data is replaced / before the feature under test
+            now = "alt"  # what Y holds
+            for g in self.PREVIOUS:
+                if not self._enabled(st, g):
+                    continue
+                gname = letter_name(g)
+                call(g, Y)
+                other = "cur" if now == "alt" else "alt"
+                refill(Y, data[other])
+                now = other
+                d = same(kind, call(full_op, Y), ref[now])
+                if d is None:
+                    call(g, Y)
+                    d = same(kind, call(full_op, Y), ref[now])
+                self.note("reuse:after-%s-%s" % (gname, kind))
+                if d is not None:
+                    fails.append(Failure(name, "live-object-reuse", "after %s on the same live %s (data then replaced in place by the %s data): %s" % (gname, kind, now, d)))
+                    return fails
+            if not np.array_equal(held(Y), data[now], equal_nan=True) or not np.array_equal(held(X), data["cur"], equal_nan=True):
+                fails.append(Failure(name, "input-array-modified" if kind == "array" else "input-image-modified", "a live %s was changed by the calls" % kind))
         return fails
 
     def _same_state(self, st, r_img, r_arr):
@@ -1147,6 +1252,8 @@ class C18(Check):
             "normalize-none-bogus-mode:refused-unknown-mode",
         ]
         need += ["form:array-%s" % f for f in ARRAY_FORMS] + ["form:image-readonly-pixels"]
+        need += ["reuse:%s-%s" % (w, k) for w in ("first-use", "second-object", "alternate", "refill", "repeat", "after-gradient", "after-igo", "after-es", "after-daisy") for k in ("array", "image")]
+        need += ["reuse:alt-data-differs"]
         need += ["param-form:%s" % f for f in ("numpy-scalars", "numpy-small-ints", "tuples", "ndarrays", "int-flags")]
         need += ["tiny-scale:%s-%s-%s" % (dt, mode, who) for dt in ("float32", "float64") for mode in ("all", "per_channel") for who in ("array", "image")]
         need += ["dtype:%s-%s" % (dt, kind) for dt in DTYPE_FORMS for kind in ("plain", "masked")]
@@ -1197,6 +1304,7 @@ class C18(Check):
             "a zero statistic is predicted (refusal / skip demanded) only for constant data that is a multiple of 1/8 or for the always-zero custom scale; constant data with other values is ill-conditioned (either outcome accepted)",
             "argument forms: pixel data as uint8 / int16 / int32 / int64 / bool / float32 / float64 (same integer payload); raw arrays as read-only, Fortran-ordered, strided and negatively strided views, images over a read-only pixel buffer (root states); parameters as numpy scalars, small numpy ints, tuples / ndarrays for lists, 0/1 for flags",
             "forms the unchanged tree itself rejects or mishandles are not letters: python lists / tuples as the pixel argument (AttributeError), daisy sigmas as tuple (TypeError) or ndarray (silently other values), daisy ring_radii with float entries (TypeError), sum_channels channels as tuple (indexes instead of selecting), gaussian sigma as np.float32 (scipy rounds differently), gradient-family features on bool pixels (numpy refuses boolean subtraction); uint8 gradient is the stated TypeError",
+            "live-object reuse (root states): one live array / image is called, refilled in place through its pixel buffer and called again, alternated with a second live object, and used by gradient / igo / es / daisy before the feature under test; every result must equal the call on a freshly built object; the other payload is the same data flipped along the first and last axes",
             "low-contrast letters: statistics below the dtype's machine epsilon but far above zero must be divided by, never refused or skipped; values judged when 1e3*eps*cond <= 0.5",
             "depth 2 (thorough) uses a reduced feature alphabet (%d letters) on the second level" % len(LEVEL2),
         ]
